@@ -487,7 +487,7 @@ def r11_located(c, facts):
     n = 0
     for q, rep in (('oal_client::cli::Processor::load', 'Processor::report'), ('oal_client::lsp::Workspace::load', 'Workspace::log_compiler_error')):
         fn = c.anchor(R, q)
-        fam = [fn] + list(facts.closures_of(fn))
+        fam = facts.family(fn)      # closures and private helpers (`.map_err(|e| self.explain_load_failure(main, e))`)
         n += 1
         loads = any(P.call_blocks(g, 'module::load') for g in fam if g.mir)
         reports = any(P.call_blocks(g, rep) for g in fam if g.mir)
@@ -541,11 +541,51 @@ def r12_width_free(c, facts, rule='C13.R12'):
         c.ok(R, {'digest': 'fixed-width integers only', 'conversions': n})
 
 
+def r15_write_verbatim(c, facts, rule='C13.R15'):
+    """the bytes on disk are the text the YAML serializer produced: the file system layer passes its buffer on unchanged
+    (a layer that trims, re-wraps or re-encodes lines rewrites scalar contents)"""
+    R = c.rule(rule, 'WRITE-VERBATIM: DefaultFileSystem::write_file hands its buffer to the operating system unchanged')
+    wf = facts.normalised(c.anchor(R, 'oal_client::<DefaultFileSystem as FileSystem>::write_file'))
+    idx = MF.defs_index(wf)
+    sites = [(b, t) for b, t in wf.calls() if re.search(r'(fs::write|Write::write_all|Write::write)$', P.strip((callee_of(t) or {}).get('def', '')))]
+    c.floor(R, 'write sites of write_file', len(sites), 1)
+    for b, t in sites:
+        data = t['args'][1] if len(t['args']) > 1 else None
+        if data is None or 'l' not in data:
+            c.bad(R, 'write_file:data-not-a-local', 'write_file writes something that is not its buffer')
+            continue
+        sl = MF.slice_back(wf, data['l'], idx)
+        names = sorted({P.strip(n).split('::')[-1] for n, _, _ in sl['calls']} - {'as_bytes', 'as_ref', 'deref', 'borrow', 'as_str', 'into_bytes', 'into', 'from', 'as_slice'})
+        inst = {'data from parameters': sorted(sl['args']), 'through': names}
+        if sl['args'] == {3} and not names and not sl['consts']:
+            c.ok(R, inst)
+        else:
+            c.bad(R, 'write_file:buffer-rewritten', 'write_file does not write its buffer as it is (derived from parameters %s through %s): what is on disk is no longer the serializer\'s text, and need not parse back to the same document' % (sorted(sl['args']), names or 'constants'), **inst)
+
+
+def r14_written_on_success(c, facts, rule='C13.R14'):
+    """exit status 0 means the target holds the document of *this* run: of these sources and this base. A success path
+    that leaves the previous file in place (an up-to-date shortcut, a dry run) answers for inputs it did not look at"""
+    R = c.rule(rule, 'WRITTEN-ON-SUCCESS: every successful return of oal-cli run() has written the target from this run\'s sources and base')
+    run = facts.normalised(c.anchor(R, 'oal_cli::run'))
+    ws = {b for b, t in P.call_blocks(run, 'FileSystem::write_file')}
+    if not ws:
+        c.bad(R, 'run-write-sites=0', 'run() no longer calls write_file')
+        return
+    if P.success_return_reachable(run, 0, ws):
+        c.bad(R, 'run:success-without-write', 'run() can return Ok without having written the target: the file on disk then belongs to an earlier run (other sources, another base description)')
+    else:
+        c.ok(R, {'run': 'every Ok return passes through write_file'})
+    # ... and the base, when one is configured, is read on the way to the write
+    rb = {b for b, t in P.call_blocks(run, 'Builder::with_base')}
+    c.floor(R, 'with_base sites in run()', len(rb), 1)
+
+
 def r13_lex_errors_reported(c, facts, rule='C13.R13'):
     """a character that starts no token makes every front end fail: the error of the lexer is put on the error list in the
     same iteration - not kept aside for a later token that may never come (the last bytes of a text)"""
     R = c.rule(rule, 'LEX-REPORTED: every lexical error is pushed onto the error list before the next token is read or the loop ends')
-    tk = c.anchor(R, 'oal_syntax::lexer::tokenize')
+    tk = facts.normalised(c.anchor(R, 'oal_syntax::lexer::tokenize'))      # a loop body moved to a new helper is looked at in place
     nx = [(b, t) for b, t in P.call_blocks(tk, 'Iterator::next') if any(k in (t['args'][0].get('ty', '') if t['args'] else '') for k in ('logos', 'Lexer', 'Spanned'))]
     pushes = {b for b, t in P.call_blocks(tk, 'Vec::push') if 'ParserError' in (t['args'][0].get('ty', '') if t['args'] else '')}
     # ... or a call of a closure / private helper that does the push (`let mut report = |range| errors.push(..)`)
@@ -592,6 +632,8 @@ def r13_lex_errors_reported(c, facts, rule='C13.R13'):
 
 
 def run(c, facts):
+    c.run(r15_write_verbatim, facts)
+    c.run(r14_written_on_success, facts)
     c.run(r13_lex_errors_reported, facts)
     c.run(r12_width_free, facts)
     c.run(r11_located, facts)
@@ -605,6 +647,10 @@ def run(c, facts):
     c.shared(R8, c15.r6_doc_sync, 'C15.R6', facts)
     c.shared(R8, c15.r4_change, 'C15.R4', facts)
     import c10
+    R16 = c.rule('C13.R16', 'IMPORT-ERRORS: an import that cannot be found or that closes a cycle (a self import included) is an error of the load every front end goes through, so all of them fail on it (shared with C10.R1, C10.R2, C10.R4)')
+    c.shared(R16, c10.r1_once, 'C10.R1', facts)
+    c.shared(R16, c10.r2_edge_agree, 'C10.R2', facts)
+    c.shared(R16, c10.r4_invalid, 'C10.R4', facts)
     R10 = c.rule('C13.R10', 'LOCATORS: every front end resolves and opens the file the user named: Url::join / Url::to_file_path, validity from the file system at load time (shared with C10.R7)')
     c.shared(R10, c10.r7_locators, 'C10.R7', facts)
     c.run(r1_sole_writer, facts)
